@@ -3,6 +3,7 @@ package main
 import (
 	"bytes"
 	"context"
+	"encoding/json"
 	"fmt"
 
 	"github.com/asticode/go-astits"
@@ -218,4 +219,75 @@ func runAcc(sc *streamScenario, rec *recorder) {
 	feedAcc(sc.SID, stream, cand, rec)
 	r := newRng(sc.Seed ^ 0xacc)
 	feedAcc(sc.SID+"/free", freeStream(r, r.rangeInt(20, 120)), map[int]bool{0: true, 0x20: true, 0x21: true}, rec)
+}
+
+// ---------- behaviours generated by TLC from spec/PacketPool.tla, replayed into the real Demuxer ----------
+
+type modelPkt struct {
+	PID  int   `json:"pid"`
+	CC   int   `json:"cc"`
+	PUSI bool  `json:"pusi"`
+	HP   bool  `json:"hp"`
+	TEI  bool  `json:"tei"`
+	Disc bool  `json:"disc"`
+	PL   []int `json:"pl"`
+}
+
+type accReplayScenario struct {
+	SID  string     `json:"sid"`
+	Pkts []modelPkt `json:"pkts"`
+}
+
+// modelPacketBytes: a 188-byte packet whose payload is exactly the model's bytes (the adaptation field takes the rest)
+func modelPacketBytes(m modelPkt) []byte {
+	p := make([]byte, 188)
+	for j := range p {
+		p[j] = 0xff
+	}
+	p[0] = 0x47
+	p[1] = byte(m.PID >> 8 & 0x1f)
+	if m.TEI {
+		p[1] |= 0x80
+	}
+	if m.PUSI {
+		p[1] |= 0x40
+	}
+	p[2] = byte(m.PID)
+	n := 0
+	if m.HP {
+		n = len(m.PL)
+	}
+	if n > 182 {
+		fatal("model payload too long")
+	}
+	afc := 2
+	if m.HP {
+		afc = 3
+	}
+	p[3] = byte(afc<<4 | m.CC&15)
+	p[4] = byte(183 - n)
+	p[5] = 0
+	if m.Disc {
+		p[5] = 0x80
+	}
+	for j := 0; j < n; j++ {
+		p[188-n+j] = byte(m.PL[j])
+	}
+	return p
+}
+
+func runAccReplay(line []byte, rec *recorder) {
+	var sc accReplayScenario
+	if err := json.Unmarshal(line, &sc); err != nil {
+		fatal("bad accreplay scenario: %v", err)
+	}
+	var stream []byte
+	for _, m := range sc.Pkts {
+		stream = append(stream, modelPacketBytes(m)...)
+	}
+	cand := map[int]bool{}
+	for _, m := range sc.Pkts {
+		cand[m.PID] = true // every PID of the behaviour logs its payload: the specification decides which ones matter
+	}
+	feedAcc(sc.SID, stream, cand, rec)
 }
